@@ -3,3 +3,5 @@ import Gomjml.Props.C04
 #print axioms Gomjml.Props.C04.C04_visible_full
 #print axioms Gomjml.Props.C04.C04_chardata_roundtrip
 #print axioms Gomjml.Props.C04.C04_chardata_never_markup
+#print axioms Gomjml.Props.C04.C04_visible_components
+#print axioms Gomjml.Props.C04.C04_once_components
